@@ -227,6 +227,12 @@ Fixpoint table_eqb (a b : table) : bool :=
 Definition table_blank (t : table) : bool := forallb (fun r => match r with [] => true | _ => false end) t.
 Definition table_equiv (a b : table) : bool := table_eqb a b || (table_blank a && table_blank b).
 
+(* the domain of the CSV theorem: any rows (ragged, empty, empty cells), every cell any string without a carriage
+   return.  csv.build_tree opens the file in text mode: universal newlines turn every CR (lone, or in CR LF, inside
+   quotes or not) into LF before csv.reader sees the text, so no loaded cell contains one. *)
+Definition csv_domainb (t : table) : bool := forallb (forallb (forallb (fun c => negb (c =? 13)))) t.
+Definition csv_domain (t : table) : Prop := csv_domainb t = true.
+
 Definition docs_agree (o : other_case) : bool :=
   match oc_doc o, oc_reload o with Some a, Some b => jv_equiv a b | _, _ => false end.
 
